@@ -199,4 +199,23 @@ PROPS = {
         technique="Coq proof (crash-closed invariant, recovery lemmas) + exhaustive crash-point enumeration with model comparison",
         assumptions=["process death only: completed system calls are durable, no reordering", "one crash per run in the quick tier"],
     ),
+    "C08": dict(
+        coq="Properties/C08.v",
+        suites=[dict(name="send", pkg="./client/", test="TestVerifSend", min_lines=500)],
+        rule=("send: the real startSend / handleSendError / payload.Bin.Split / Remove against a scripted network: exhaustively every failure position of every "
+              "payload of 1..5 parts x {partial-content answer with count k, error without count + recovery request answering k after 0..2 failed recovery "
+              "requests}, plus seeded scripts of up to 4 consecutive failures on payloads of 1..7 parts with files changing between attempts; the parts of "
+              "every Transmit call and of every group forwarded to the tracker are compared with the model; non-trivial = at least two requests; distinct = "
+              "distinct input lines"),
+        level_text=("Proof: for every sequence of failures, reported counts, failed recovery requests and file changes the send loop accounts for every part "
+                    "exactly once (forwarded / dropped as changed / still to send) - nothing skipped, abandoned or counted twice; what counts as sent is exactly "
+                    "the leading k parts the receiver reported and the next request carries exactly the remainder (theorems over the model of startSend + "
+                    "handleSendError after fix 3574b5d). Tied to the code by exhaustive + seeded differential runs of the real loop. The tracker/poll part of "
+                    "the statement (logged as sent only when every byte is acknowledged) is covered by the end-to-end suite."),
+        level_note=("Trusted: Coq kernel (no axioms), extraction, harness. Modelled by hand: client.startSend, handleSendError, Bin.Split/Remove, the changed-file "
+                    "filter. The network and receiver are an adversarial event list; that the reported count equals what the receiver recorded is the "
+                    "receiver's side (C09: Received / 206 count). Several sender threads: each runs this loop on its own payload (no shared state but the channels)."),
+        technique="Coq proof (permutation invariant of the send loop over adversarial event lists) + exhaustive/seeded differential testing of the real loop",
+        assumptions=["part identities within a payload are distinct (one part per chunk)", "ErrorBackoff sleeping is not modelled"],
+    ),
 }
